@@ -334,6 +334,15 @@ def random_restore_case(rng):
         if not any(o["k"] in ("normalize_x", "normalize_y") for o in prefix):
             break
     suffix = random_program(rng, maxops=5, start=start)["ops"]
+    if rng.random() < 0.5:
+        # bookkeeping that a restore may forget (accumulated scales / shifts) and a first step after the restore that would read it
+        # (seed C09i: the smoothing condition multiplied by a stale y_scale)
+        prefix.insert(rng.randint(0, len(prefix)), rng.choice([{"k": "scale_y", "v": R(rng.choice([3, -2, Fraction(1, 4), 10]))},
+                                                               {"k": "scale_x", "v": R(rng.choice([2, Fraction(1, 2), 4]))},
+                                                               {"k": "shift_y", "v": R(rng.choice([7, -3]))}, {"k": "shift_x", "v": R(rng.choice([10, -4]))}]))
+        suffix.insert(0, rng.choice([{"k": "smooth", "s_f": rng.choice([0.5, 5.0, 50.0])}, {"k": "smooth", "s_f": 5.0}, {"k": "to_function"},
+                                     {"k": "noise", "snr_f": 20.0, "seed": rng.randint(0, 10 ** 6)},
+                                     {"k": "trend", "c": [R(1), R(Fraction(1, 2)), R(0)], "normalized": True}]))
     return {"fn": "wrestore", "start": {"x": [R(v) for v in xs], "y": [R(v) for v in ys]}, "prefix": prefix, "suffix": suffix}
 
 
